@@ -1,6 +1,7 @@
 """C11 — per-property knobs of ./check (see DESIGN.md §6 C11, notes/C11.md)."""
 THEOREMS_TIED = ["Rustic.Props.C11.cursor_walk_refines_lookup", "Rustic.Props.C11.parent_eq_full",
-                 "Rustic.Props.C11.reuse_requires_indexed", "Rustic.Props.C11.missing_blob_forces_reread"]
+                 "Rustic.Props.C11.reuse_requires_indexed", "Rustic.Props.C11.missing_blob_forces_reread",
+                 "Rustic.Props.C11.tree_iterator_sorted_source_queriesOK", "Rustic.Props.C11.parent_eq_full_sorted_source"]
 
 TRUSTED = [
     "hand-written models lean/Rustic/Model/{Tree,Parent,Archive}.lean of archiver/parent.rs, archiver/tree.rs, archiver/tree_archiver.rs, archiver/file_archiver.rs, archiver.rs",
@@ -9,7 +10,7 @@ TRUSTED = [
     "std: Ord for OsStr is byte-wise lexicographic; serde_json/zstd round trip of stored trees",
 ]
 ASSUMPTIONS = [
-    "parent_eq_full is stated for sorted parent trees and a source walked in name order (SortedStore, queriesOK) and a parent that is faithful (every entry with equal type/size/mtime/ctime has the content a fresh read gives)",
+    "parent_eq_full_sorted_source is stated for sorted parent trees (SortedStore), a source forest walked depth-first in name order (WalkableL, SortedL — that its TreeIterator items are queriesOK is now a theorem, tree_iterator_sorted_source_queriesOK) and a parent that is faithful (every entry with equal type/size/mtime/ctime has the content a fresh read gives)",
     "a parent directory node without subtree (hostile tree) makes Parent::process panic (`subtree.unwrap()`): modelled as panicNoSubtree, not generated",
     "parent selection by group / latest (ParentOptions::get_parent) is exercised end-to-end only, not modelled",
 ]
@@ -17,7 +18,7 @@ RULE = ("ops from harness/src/c11.rs, one splitmix64 PRNG (VERIF_SEED): `proc` =
         "duplicate names, relabelled id order) x item streams derived by mutation (mtime/size/ctime/ctime-none/inode/type change, removed, added, unbalanced EndTree) x "
         "ignore_ctime/ignore_inode x random index; `e2e` = real backup histories (see notes). Non-trivial = at least one Matched or NotMatched answer / at least one reused or re-read file; "
         "distinct by hash of (op, observation).")
-EXPLANATION = ("Theorems: cursor walk of Parent refines lookup-by-name under sortedness (never skips an equal name; several parents; directory stack); parent-based root tree id = forced "
+EXPLANATION = ("Theorems: TreeIterator over a depth-first, name-sorted source yields exactly the bracketed walk and queries names in non-decreasing order per level; cursor walk of Parent refines lookup-by-name under sortedness (never skips an equal name; several parents; directory stack); parent-based root tree id = forced "
                "root tree id for every faithful parent; reuse only if all blobs indexed, else re-read; stat/type change never matches. Correspondence: per item the real Parent::process "
                "answer (Matched/NotMatched/NotFound, matched subtree, content put into the node) equals the model's; end-to-end: real parent-based vs forced backups.")
 
